@@ -521,6 +521,8 @@ func main() {
 			rn.streamTraps(g, opList)
 		case "errdec":
 			rn.streamErrDec(g)
+		case "bigint":
+			rn.streamBigInt(g)
 		default:
 			fmt.Fprintf(os.Stderr, "unknown stream %q\n", *stream)
 			os.Exit(2)
